@@ -53,7 +53,8 @@ func MustParseTime(value string) Time {
 // TimeFromProto takes a proto Time and returns a System Time.
 func TimeFromProto(proto *dtpb.Time) Time {
 	duration := fhirconv.TimeToDuration(proto)
-	t := time.UnixMicro(duration.Microseconds()).In(time.UTC)
+	// Same zero date as a parsed Time literal, so that the two compare by time of day.
+	t := time.Date(0, time.January, 1, 0, 0, 0, 0, time.UTC).Add(duration)
 	var l layout
 	switch proto.Precision {
 	case dtpb.Time_MICROSECOND:
